@@ -62,7 +62,10 @@ class P(vlib.Prop):
             "string / []string / map[string]string targets and ToStringMap, checked ALSO member by member by the token "
             "interpreter; dollar-name: 130 single-key configs with a reference whose name contains '$' (single, paired, "
             "runs, any position; whole / embedded / in lists, maps, provider texts, nested, default scheme, escaped) over "
-            "providers that HAVE such entries, which must be refused with the '$' error; 1 guarded child-process probe of a "
+            "providers that HAVE such entries, which must be refused with the '$' error; re-resolve: 90 scenarios in which ONE Resolver resolves 2-3 times while provider values and "
+            "sources change in between and a provider fires its WatcherFunc (each Resolve a case; oracle: equal to a fresh "
+            "Resolver on the current values); the merge family lists the same source URI again in a third of its cases; "
+            "1 guarded child-process probe of a "
             "doubling reference cycle (memory watchdog 300 MiB, RLIMIT_AS 2 GiB, 180 s deadline). thorough = 12x. Non-trivial = every case except single-source merges; distinct = "
             "distinct case terms (duplicates are dropped by the harness).")
     trusted_base = [
